@@ -34,6 +34,8 @@ func c03Gen(g *core.Gen) {
 		{Sizes: []int{16, 9}, Slice: 8, Blocks: 3, Class: "trailzero"},
 		{Sizes: []int{9, 9}, Slice: 4, Blocks: 3, Class: "uniq", DupFile: true},
 		{Sizes: []int{27, 20}, Slice: 8, Blocks: 3, Class: "crccollide"}, // two different slices sharing a CRC-32, in one file and across files
+		{Sizes: []int{59, 20}, Slice: 8, Blocks: 3, Class: "crcfield"},   // slices carrying the boundary values of the checksum field (0, 1, 0xffffffff, ...)
+		{Sizes: []int{14, 9}, Slice: 4, Blocks: 2, Class: "crcfield"},
 	} {
 		d := 1
 		if g.Thorough() || len(cfg.Sizes) == 2 {
